@@ -156,7 +156,17 @@ func primitives() []any {
 	add([]byte(nil), []byte{}, []byte{0}, []byte{1, 2, 255})
 	add([]uint16{}, []uint16{1, 65535}, []string{"", "a"}, [][]byte{{1}, {}}, [3]int32{1, -2, 3}, [0]int8{}, [][]int64{{1}, {}, {2, 3}})
 	add(inner{A: -3, B: []uint16{7}, C: [2]string{"x", ""}}, outer{X: 9, In: inner{A: 1}, Ls: []inner{{}, {A: 2, B: []uint16{1, 2}}}, F: 2.5, Bs: []byte{9}, Ok: true, S: "s"}, []outer{{}, {S: "héllo✓"}})
+	// element types that differ in width but not in name (anonymous structs, local types of the same name): wide first, then
+	// narrow at the very end of its buffer, then the other way round
+	type el struct{ A, B, C int64 }
+	add([]struct{ A, B int64 }{{1, 2}}, []struct{ A byte }{{7}, {8}}, []struct{ S string }{{"x"}, {""}}, []struct{ A byte }{{9}}, []struct{ A, B, C, D int64 }{{1, 2, 3, 4}}, []el{{1, 2, 3}})
+	out = append(out, narrowEl()...)
 	return out
+}
+
+func narrowEl() []any {
+	type el struct{ A byte }
+	return []any{[]el{{1}, {2}, {3}}}
 }
 
 func primitiveCheck() *venum.Check {
